@@ -84,25 +84,25 @@ contract(SOL + "harvest_index.py", "harvest_index",
          requires=contracts.water.WF() + [
              contracts.water.WATER_INV("InitCond.th"),
              "forall(j, 0, n, prof.dz[j] >= 0.01)", "forall(j, 0, n, prof.th_fc[j] - prof.th_wp[j] >= 0.01)",
-             "Crop.Zmin >= 0.02", "Crop.Aer >= 1",
+             "Crop.Zmin >= 0.02", "Crop.Aer >= 1 or Crop.Aer <= 0",
              "max(InitCond.z_root, Crop.Zmin) + 0.005 <= prof.dzsum[n-1]",
-             "Soil_zTop >= prof.dzsum[0] + 0.005 or (is_int(100 * Soil_zTop) and Soil_zTop >= prof.dzsum[0])",
+             "Soil_zTop >= 0.01",
              "forall(k, 0, 4, 0 <= Crop.p_up[k] and Crop.p_up[k] <= 1)", "forall(k, 0, 4, 0 <= Crop.p_lo[k] and Crop.p_lo[k] <= 1)",
              "forall(k, 0, 3, Crop.fshape_w[k] != 0)",
              "Crop.PolHeatStress == 0 or Crop.PolHeatStress == 1", "Crop.PolColdStress == 0 or Crop.PolColdStress == 1",
              "Crop.Tmin_lo < Crop.Tmin_up", "Crop.fshape_b >= 0",
              "Crop.CropType == 1 or Crop.CropType == 2 or Crop.CropType == 3",
-             "Crop.HI0 >= 0", "Crop.dHI0 >= 0", "Crop.FloweringCD > 0",
+             "Crop.HI0 >= 0", "Crop.dHI0 >= -100", "Crop.FloweringCD > 0",
              "implies(Crop.dHI_pre > 0, Crop.dHI_pre > 1)",
              # crop state invariants (established by the previous steps of the day / earlier days)
              "implies(growing_season, 0 <= InitCond.hi_ref and InitCond.hi_ref <= Crop.HI0)",
-             "implies(growing_season, InitCond.harvest_index <= Crop.HI0 and InitCond.harvest_index_adj <= Crop.HI0 * (1 + Crop.dHI0 / 100))",
+             "implies(growing_season, InitCond.harvest_index <= Crop.HI0 and InitCond.harvest_index_adj <= Crop.HI0 * (1 + max(Crop.dHI0, 0) / 100))",
              "0 <= InitCond.f_pol and InitCond.f_pol <= 1", "InitCond.biomass >= 0", "Crop.exc >= -100",
          ],
          returns=[("NewCond", ("Param", "InitCond"))],
          ensures=[
              ("C05.hi_le_reference", "NewCond.harvest_index <= Crop.HI0"),
-             ("C05.hi_adj_le_reference_plus_max_increase", "NewCond.harvest_index_adj <= Crop.HI0 * (1 + Crop.dHI0 / 100)"),
+             ("C05.hi_adj_le_reference_plus_max_increase", "NewCond.harvest_index_adj <= Crop.HI0 * (1 + max(Crop.dHI0, 0) / 100)"),
              ("C05.hi_tracks_reference", "implies(growing_season, NewCond.harvest_index == NewCond.hi_ref or NewCond.harvest_index == old(InitCond.harvest_index))"),
              ("C05.hi_zero_out_of_season", "implies(not growing_season, NewCond.harvest_index == 0 and NewCond.harvest_index_adj == 0)"),
              ("C05.hi_fpol_range", "0 <= NewCond.f_pol and NewCond.f_pol <= 1"),
@@ -153,9 +153,9 @@ contract(SOL + "canopy_cover.py", "canopy_cover",
          requires=contracts.water.WF() + [
              contracts.water.WATER_INV("InitCond.th"),
              "forall(j, 0, n, prof.dz[j] >= 0.01)", "forall(j, 0, n, prof.th_fc[j] - prof.th_wp[j] >= 0.01)",
-             "Crop.Zmin >= 0.02", "Crop.Aer >= 1",
+             "Crop.Zmin >= 0.02", "Crop.Aer >= 1 or Crop.Aer <= 0",
              "max(InitCond.z_root, Crop.Zmin) + 0.005 <= prof.dzsum[n-1]",
-             "Soil_zTop >= prof.dzsum[0] + 0.005 or (is_int(100 * Soil_zTop) and Soil_zTop >= prof.dzsum[0])",
+             "Soil_zTop >= 0.01",
              "forall(k, 0, 4, 0 <= Crop.p_up[k] and Crop.p_up[k] <= 1)", "forall(k, 0, 4, 0 <= Crop.p_lo[k] and Crop.p_lo[k] <= 1)",
              "forall(k, 0, 3, Crop.fshape_w[k] != 0)",
              "implies(growing_season, Crop.CalendarType == 1 or Crop.CalendarType == 2)",
@@ -209,3 +209,26 @@ contract(SOL + "root_development.py", "root_development",
          note="ASSUMED contract: root_development is not under proof (known finding C05: roots shrink on restrictive layers); only the frame (no heap effect) "
               "and the facts the other callees need about the returned depth are assumed",
          props=("C05",))
+
+# ----------------------------------------------------------------------------- initialisers that are plain scalar loops: calculate_HIGC, calculate_HI_linear
+INIT = "aquacrop/initialize/"
+_C0 = "(crop_HIini * (1 / 0.98 - 1) / (crop_HI0 - crop_HIini))"          # the loop of calculate_HIGC runs while exp(-HIGC*tHI) >= c0
+contract(INIT + "calculate_HIGC.py", "calculate_HIGC",
+         params=dict(crop_YldFormCD="Int", crop_HI0="Real", crop_HIini="Real"),
+         requires=["crop_YldFormCD >= 1", "0 < crop_HIini", "crop_HIini < 0.98 * crop_HI0", "crop_HI0 <= 1"],
+         returns=[("HIGC", "Real")],
+         ensures=[("C05.higc_positive", "HIGC > 0")],
+         loops={"L1": dict(invariant=[("pos", "HIGC >= 0.001 and tHI == crop_YldFormCD"),
+                                      ("link", "(HIest == 0 and HIGC == 0.001) or (HIGC >= 0.002 and HIest == crop_HIini * crop_HI0 / (crop_HIini + (crop_HI0 - crop_HIini) * exp(-HIGC * tHI)))")],
+                           # terminates: the guard HIest <= 0.98*HI0 is equivalent to HIGC <= -log(c0)/tHI, and HIGC grows by 0.001 per iteration
+                           decreases="-log(%s) / tHI - HIGC + 0.001" % _C0, decreases_step=0.001)},
+         note="termination needs YldFormCD >= 1: for YldFormCD <= 0 (known finding C16, SwitchGDD=1 in a cool window) the loop never ends",
+         props=("C05", "C16"))
+
+contract(INIT + "calculate_HI_linear.py", "calculate_HI_linear",
+         params=dict(crop_YldFormCD="Int", crop_HIini="Real", crop_HI0="Real", crop_HIGC="Real"),
+         requires=["crop_YldFormCD >= 1", "0 < crop_HIini", "crop_HIini < crop_HI0", "crop_HIGC >= 0"],
+         returns=[("tLinSwitch", "Int"), ("dHILinear", "Real")],
+         ensures=[("C05.hi_linear_switch_range", "tLinSwitch >= 0 and tLinSwitch < crop_YldFormCD")],
+         loops={"L1": dict(invariant=[("range", "0 <= ti and ti <= tmax and tmax == crop_YldFormCD"), ("first", "ti >= 1 or HIest == 0")], decreases="tmax - ti")},
+         props=("C05", "C16"))
